@@ -4,6 +4,7 @@ import (
 	"testing"
 
 	"verifsim/core"
+	"verifsim/fakepg"
 )
 
 // Generators per property: a plan from a run seed.
@@ -35,8 +36,50 @@ func RunPlan(t *testing.T, plan *Plan, st *core.Stream, keepLog bool) *Result {
 }
 
 func extraFor(p *Plan) Extra {
+	e := Extra{}
 	if f, ok := Extras[p.Prop]; ok {
-		return f(p)
+		e = f(p)
 	}
-	return Extra{}
+	if p.Checks["deps"] && p.Prop != "C05" {
+		// plans of other properties that contain a dependency graph also get
+		// the C05 monitors
+		d := Extras["C05"](p)
+		e = chainExtra(e, d)
+	}
+	return e
+}
+
+func chainExtra(a, b Extra) Extra {
+	out := a
+	if b.OnCommit != nil {
+		f := a.OnCommit
+		out.OnCommit = func(w *World, p *pairState, ci *fakepg.CommitInfo) {
+			if f != nil {
+				f(w, p, ci)
+			}
+			b.OnCommit(w, p, ci)
+		}
+	}
+	if b.OnOutcome != nil {
+		f := a.OnOutcome
+		out.OnOutcome = func(w *World, p *pairState, err error) {
+			if f != nil {
+				f(w, p, err)
+			}
+			b.OnOutcome(w, p, err)
+		}
+	}
+	if b.AtEnd != nil {
+		f := a.AtEnd
+		out.AtEnd = func(w *World) {
+			if f != nil {
+				f(w)
+			}
+			b.AtEnd(w)
+		}
+	}
+	if b.OnSQL != nil && a.OnSQL == nil {
+		out.OnSQL = b.OnSQL
+	}
+	return out
 }
